@@ -41,7 +41,7 @@ def register(reg):
     reg.add(Contract(
         f'{CV}:is_valid_rgb', params={'rgb': 'rgb'},
         pre=lambda S, a: S.true, result='bool', pure=True, raises=(),
-        posts={'def': lambda S, a, r: S.Iff(r, S.rgb8(a.rgb)) if S.concrete or (S.is_tuple3(a.rgb) and all(isinstance(x, (VInt, VBool)) for x in a.rgb.xs)) else S.true},
+        posts={'def': lambda S, a, r: S.Iff(r, S.in_0_255(a.rgb)) if S.concrete or (S.is_tuple3(a.rgb) and all(is_num(x) for x in a.rgb.xs)) else S.true},
         assumed='all(0 <= v <= 255 for v in rgb): verified by engine A in check C10'))
     reg.add(Contract(
         f'{CV}:rgbint_to_string', params={'rgb': 'rgb'},
